@@ -100,12 +100,16 @@ class Parser:
         context._titles = excel.get_titles()
         context._sheets_size = excel.get_sheets_size()
 
-        if self._entrypoint_cell:
-            # the entry cell is copied so that identifiers and value resolved for one workbook are never reused for another
-            CellTranslator.translate(Cell(title=self._entrypoint_cell.title, column=self._entrypoint_cell.column,
-                                          row=self._entrypoint_cell.row), excel, context)
-        else:
-            CellTranslator.translate_file(excel, context)
+        try:
+            if self._entrypoint_cell:
+                # the entry cell is copied so that identifiers and value resolved for one workbook are never reused
+                # for another
+                CellTranslator.translate(Cell(title=self._entrypoint_cell.title, column=self._entrypoint_cell.column,
+                                              row=self._entrypoint_cell.row), excel, context)
+            else:
+                CellTranslator.translate_file(excel, context)
+        except RecursionError:
+            raise E2PyclParserException('The formulas are too long or depend on each other too deeply to be translated.')
 
         self._translation = context.build_class()
 
